@@ -44,6 +44,11 @@ pub(crate) fn parse_file(ctx: &mut StaticsContext, file_id: FileId) -> Rc<FileAs
             }
         }
     }
+    // a token that was expected but missing does not fail the item it is part of. Report
+    // those errors too (unless an earlier error of this file was already reported)
+    if !parser.error_found {
+        ctx.errors.extend(std::mem::take(&mut parser.errors));
+    }
 
     let file_data = ctx.file_db.get(file_id).unwrap();
     Rc::new(FileAst {
